@@ -1047,6 +1047,22 @@ func c10Gen(rng *rand.Rand, tier string) []core.Spec {
 			}
 		}
 	}
+	// invalid requests that must leave the wire and the connection untouched: an oversized control
+	// message fed to a control-type writer by ReadFrom / io.Copy (smallest and ordinary buffers, the
+	// source reporting EOF with the data or separately), followed by a valid message
+	for _, server := range []bool{false, true} {
+		for _, wbuf := range []int{1, 125, 126, 300} {
+			for _, n := range []int{125, 126, 200, 251, 400} {
+				data := genWPayload(rng, n)
+				for _, glued := range []bool{false, true} {
+					for _, ty := range []int{8, 9, 10} {
+						out = append(out, &WriterSpec{Prop: 10, Server: server, WBuf: wbuf, FailAt: -1, Note: "control-writer-ReadFrom",
+							Ops: []WOp{{K: 1, Ty: ty}, {K: 4, Chunks: []B{B(data[:n/2]), B(data[n/2:])}, Bv: glued}, {K: 5}, {K: 0, Ty: 2, Data: B("next")}}})
+					}
+				}
+			}
+		}
+	}
 	return out
 }
 
